@@ -616,10 +616,10 @@ fn run_case(ctxs: &mut HashMap<String, Ctx>, c: &Value) -> Value {
         "pol": pol_json(&pol), "setup": setup_json(&setup), "chain": chain, "side": side, "n": n,
         "pre": {"holder": req_json(&pre_h), "cp": req_json(&pre_c)}, "req": req_json(&req),
         "obs": {"setup": setup_res.0, "setup_cls": setup_res.1, "open": open_res.0, "open_cls": open_res.1,
-                "res1": "none", "res1_cls": "none", "cstate2": [],
+                "res1": "none", "res1_cls": "none", "adv": "none", "cstate2": [],
                 "res": res.0, "res_cls": res.1, "sig": sig, "cstate": cstate,
                 "msg": [setup_res.2, open_res.2, res.2, ""]},
-        "seq": {"on": false, "req1": req_json(&parse_req(&c["seq"]["req1"])), "chain2": c["seq"]["chain2"]},
+        "seq": {"on": false, "adv": false, "req1": req_json(&parse_req(&c["seq"]["req1"])), "chain2": c["seq"]["chain2"]},
     })
 }
 
@@ -632,10 +632,34 @@ fn run_seq(c: &Value, pol: &Pol, setup: &Setup, n: u64, side: &str, req: &Req, p
     let mut res = res1.clone();
     let mut sig = "na";
     let mut cstate2 = json!([]);
+    let adv = c["seq"]["adv"].as_bool().unwrap_or(false);
+    let n1 = if adv { n - 1 } else { n };
+    let mut adv_res = "none".to_string();
     if ctx.setup_res.0 == "ok" && ctx.open_res.0 == "ok" {
-        let (r1, _) = ctx.request(side, n, &req1);
+        let (r1, _) = ctx.request(side, n1, &req1);
         res1 = r1;
-        if res1.0 != "panic" {
+        if adv {
+            // the pending commitment becomes current, as the protocol does it
+            if res1.0 == "ok" {
+                let o = if side == "holder" {
+                    outcome(catch(|| {
+                        ctx.fx.node.with_channel(&ctx.id, |chan| chan.revoke_previous_holder_commitment(n1)).map(|_| ())
+                    }))
+                } else {
+                    let secret = tree_secret(&TREE_A, n1 - 1);
+                    outcome(catch(|| {
+                        ctx.fx.node.with_channel(&ctx.id, |chan| chan.validate_counterparty_revocation(n1 - 1, &secret))
+                    }))
+                };
+                adv_res = o.0.clone();
+                if o.0 == "ok" {
+                    cstate2 = ctx.chain_state();
+                    let (r2, k) = ctx.request(side, n, req);
+                    res = r2;
+                    sig = k;
+                }
+            }
+        } else if res1.0 != "panic" {
             ctx.chain_to(&c["chain"], &c["seq"]["chain2"]);
             cstate2 = ctx.chain_state();
             let (r2, k) = ctx.request(side, n, req);
@@ -652,10 +676,10 @@ fn run_seq(c: &Value, pol: &Pol, setup: &Setup, n: u64, side: &str, req: &Req, p
         "pol": pol_json(pol), "setup": setup_json(setup), "chain": chain, "side": side, "n": n,
         "pre": {"holder": req_json(pre_h), "cp": req_json(pre_c)}, "req": req_json(req),
         "obs": {"setup": ctx.setup_res.0, "setup_cls": ctx.setup_res.1, "open": ctx.open_res.0, "open_cls": ctx.open_res.1,
-                "res1": res1.0, "res1_cls": res1.1, "cstate2": cstate2,
+                "res1": res1.0, "res1_cls": res1.1, "adv": adv_res, "cstate2": cstate2,
                 "res": res.0, "res_cls": res.1, "sig": sig, "cstate": ctx.cstate,
                 "msg": [ctx.setup_res.2, ctx.open_res.2, res.2, res1.2]},
-        "seq": {"on": true, "req1": req_json(&req1), "chain2": chain2},
+        "seq": {"on": true, "adv": adv, "req1": req_json(&req1), "chain2": chain2},
     })
 }
 
